@@ -356,19 +356,55 @@ WN_EVERY = 5  # every 5th bucket holds a weight-normalised family (bnaf / tri_sp
               # buckets of the earlier generator, in their old order (old bucket j sits at j + j // 4)
 
 
+NAMED_SWEEP_EVERY = 8  # C18 only: among the non-weight-normalised buckets every 8th is a named-family sweep bucket
+NAMED_SWEEP = ["Logistic", "StudentT", "Gumbel", "Cauchy", "Laplace", "Normal", "Exponential", "LogNormal", "Uniform", "MultivariateNormal",
+               "VmapMixture", "MixShiftedLogNormal"]
+SWEEP_SYMBOLS = ["big", "-big", "huge", "-huge", "0", "tiny", "out_lo", "out_hi", "1", "-1", "big", "-huge"]
+
+
 def _route(prop, idx):
-    """(is_wn_bucket, bucket index within its stream, run index within its stream)."""
+    """(kind, bucket index within its stream, run index within its stream); kind in {"wn", "sweep", "old"}."""
     K = K_BUCKET[prop]
     b, k = divmod(idx, K)
     if b % WN_EVERY == WN_EVERY - 1:
         wb = b // WN_EVERY
-        return True, wb, wb * K + k
+        return "wn", wb, wb * K + k
     ob = b - b // WN_EVERY
-    return False, ob, ob * K + k
+    if prop == "C18":
+        if ob % NAMED_SWEEP_EVERY == NAMED_SWEEP_EVERY - 1:
+            sb = ob // NAMED_SWEEP_EVERY
+            return "sweep", sb, sb * K + k
+        ob = ob - ob // NAMED_SWEEP_EVERY
+    return "old", ob, ob * K + k
+
+
+def _c18_sweep_world(tier, seed, idx, sb, ridx):
+    """Named-family sweep (C18): bucket sb trains family sb mod 12 by maximum likelihood; run k of the bucket carries one
+    fault row whose chosen coordinate is the k-th value of a fixed list of large / boundary / out-of-support values."""
+    K = K_BUCKET["C18"]
+    k = ridx % K
+    r = rng_for(seed, "C18", tier, "sweeprun", ridx)
+    rb = rng_for(seed, "C18", tier, "sweepbucket", sb)
+    name = NAMED_SWEEP[sb % len(NAMED_SWEEP)]
+    dim = rb.choice([0, 2]) if name in ("VmapMixture", "MixShiftedLogNormal") else (rb.choice([1, 2, 3]) if name == "MultivariateNormal" else rb.choice([0, 1, 2]))
+    base = {"kind": "named", "name": name, "dim": dim, "lo": 1e-2, "hi": 1e2}
+    w = {"engine": "B", "prop": "C18", "model": _fill_values(base, r), "freeze": [], "loop": "data", "loss": "mle", "opt": rb.choice(["sgd", "adam"]),
+         "lr": 1e-3, "idx": idx, "sweep": [name, SWEEP_SYMBOLS[k]], "data": {"n": 12, "seed": r.randrange(2**31)}, "batch_size": 4, "val_prop": 0.25,
+         "key_seed": r.randrange(2**31), "return_best": False, "show_progress": False, "key_style": "legacy", "max_epochs": 1, "max_patience": 5, "faults": []}
+    d = max(dim, 1)
+    rows = [{"pos": r.randrange(12), "coords": [r.randrange(d)], "symbols": [SWEEP_SYMBOLS[k]], "knot_index": 0}]
+    if r.random() < 0.5:
+        rows.append({"pos": r.randrange(12), "coords": list(range(d)), "symbols": [SWEEP_SYMBOLS[(k + 5) % K]] * d, "knot_index": 0})
+    w["data"]["fault_rows"] = rows
+    if name not in ("MixShiftedLogNormal", "LogNormal", "Exponential", "Uniform") and r.random() < 0.3:
+        w["data"]["source"] = "normal"  # (support-limited families keep model samples: the bulk stays inside the support)
+        w["data"]["scale"] = r.choice([0.5, 1.0, 3.0])
+    return w
 
 
 def _bucket(prop, tier, seed, idx):
-    wn, bidx, _ = _route(prop, idx)
+    kind_, bidx, _ = _route(prop, idx)
+    wn = kind_ == "wn"
     r = rng_for(seed, prop, tier, "wnbucket" if wn else "bucket", bidx)
     if wn:
         kinds = {"C09": ["bnaf"], "C11": ["bnaf", "bnaf", "tri_spline", "tri_spline"], "C12": ["bnaf", "bnaf", "tri_spline"],
@@ -712,8 +748,11 @@ def world_for(prop, tier, seed, idx):
 
 
 def _world_for_seeded(prop, tier, seed, idx):
+    kind_, sb_, ridx = _route(prop, idx)
+    if kind_ == "sweep":
+        return _c18_sweep_world(tier, seed, idx, sb_, ridx)
+    wn = kind_ == "wn"
     b = _bucket(prop, tier, seed, idx)
-    wn, _, ridx = _route(prop, idx)
     r = rng_for(seed, prop, tier, "wnrun" if wn else "run", ridx)
     w = copy.deepcopy(b)
     w["idx"] = idx
